@@ -966,9 +966,9 @@ def plan_batches(ctx: Ctx, ok_cases: List[Case], bad_cases: List[Case], donors: 
         else:
             batches.append(Batch(f"seed{hs}-{bi}", hs, steps))
     # the real command line (argparse, module start-up): a few single-step processes
-    cli_cases = [c for c in ok_cases if c.model == "multi" and c.target in ("python", "xsd")] + [c for c in bad_cases if (c.model, c.target) in (("bad_keys", "python"), ("missing_snippets", "cpp"), ("two_errors", "jsonschema"))]
+    cli_cases = [c for c in ok_cases if c.model == "multi"] + [c for c in bad_cases if (c.model, c.target) in (("bad_keys", "python"), ("missing_snippets", "cpp"), ("two_errors", "jsonschema"))]
     if thorough:
-        cli_cases = cli_cases + [c for c in ok_cases if c.model in ("multi", "list_of_classes", "aas_core_meta.v3") and c not in cli_cases]
+        cli_cases = cli_cases + [c for c in ok_cases if c.model in ("list_of_classes", "aas_core_meta.v3")] + [c for c in bad_cases if c not in cli_cases]
     for k, c in enumerate(cli_cases):
         mod = "aas_core_codegen" if k % 3 == 2 else "aas_core_codegen.main"
         var = {"rseed": k, "outloc": k % 2 == 1}
